@@ -594,6 +594,31 @@ def _takes_value(name, pos):
     return h
 
 
+# jansson tolerates a NULL container: documented results, no dereference
+NULL_CONTAINER = {
+    'json_object_set_new': (0, -1), 'json_object_set_new_nocheck': (0, -1), 'json_object_del': (0, -1), 'json_object_clear': (0, -1),
+    'json_object_update': (0, -1), 'json_object_update_missing': (0, -1), 'json_object_update_existing': (0, -1),
+    'json_array_append_new': (0, -1), 'json_dumps': (0, None), 'json_deep_copy': (0, None), 'json_object_get': (0, None),
+    'json_array_get': (0, None), 'json_array_size': (0, 0), 'json_integer_value': (0, 0),
+}
+
+
+def _null_container(name, inner):
+    pos, ret = NULL_CONTAINER[name]
+
+    def h(it, st, args, node):
+        if pos < len(args) and (args[pos] is NULL or (isinstance(args[pos], Int) and args[pos].v == 0)):
+            rv = NULL if ret is None else Int(ret)
+            # a *_new setter releases the value it was handed even when it refuses
+            for tp in SPEC.get(name, {}).get('takes', ()):
+                if tp < len(args) and isinstance(args[tp], Ref):
+                    own_sink(it, st, args[tp], node, name)
+            api_event(st, name, rv, args, node)
+            return [(st, rv)]
+        return inner(it, st, args, node)
+    return h
+
+
 def h_noop_ret0(it, st, args, node):
     return [(st, Int(0))]
 
@@ -613,6 +638,9 @@ def build_model(overrides=None):
     m['json_object_set_new'] = _takes_value('json_object_set_new', 2)
     m['json_array_append_new'] = _takes_value('json_array_append_new', 1)
     m['strcpy'] = h_strcpy
+    for name in NULL_CONTAINER:
+        if name in m:
+            m[name] = _null_container(name, m[name])
     if overrides:
         m.update(overrides)
     return m
